@@ -172,13 +172,15 @@ class AWorld:
         for slot in self.slots:
             addr, key = slot
             was, now = before[slot], self.held(addr, key)
-            ev = self.events(key, addr)
+            # counted without a case split on which log entries concern this record
+            n_sub = vc.count([e[0] == "subscribed" and e[1] == key and e[2] == addr for e in self.log])
+            n_unsub = vc.count([e[0] == "unsubscribed" and e[1] == key and e[2] == addr for e in self.log])
             if was and not now:
-                vc.check_eq(ev, ["unsubscribed"], label + ".release_reported_unsubscribed_once")
+                vc.check(n_unsub == 1 and n_sub == 0, label + ".release_reported_unsubscribed_once")
             elif now and not was:
-                vc.check_eq(ev, ["subscribed"], label + ".acceptance_reported_subscribed_once")
+                vc.check(n_sub == 1 and n_unsub == 0, label + ".acceptance_reported_subscribed_once")
             else:
-                vc.check_eq(ev, [], label + ".no_change_no_notification")
+                vc.check(n_sub == 0 and n_unsub == 0, label + ".no_change_no_notification")
         self.check_frame(label)
 
     def expected_ack(self, ttl):
